@@ -231,6 +231,8 @@ class GroupPipe:
 
         for comp in self.leaves:
             if isinstance(comp, om.IndepVarComp):
+                if comp.pathname == "_auto_ivc" and self.internal_defaults:
+                    continue  # decided per consuming input below (model input -> symbol, library-internal default -> constant)
                 for n in comp._var_rel_names["output"]:
                     absn = comp.pathname + "." + n
                     if source_value(absn) is None:
@@ -269,6 +271,12 @@ class GroupPipe:
                         if key:
                             sv = np.asarray(external[key], dtype=object)
                             sv = sv.reshape(sshape) if sv.size == int(np.prod(sshape)) else np.broadcast_to(sv, sshape).copy()
+                        elif self._internal_default(comp, n, abs_in):
+                            # an input that the enclosing library group neither promotes nor connects (e.g. the span of
+                            # Stretch when the surface dictionary has no "span" key): it keeps the value the group gave it
+                            sv = symify(np.array(self.prob.get_val(abs_in, units=self.meta_out[src].get("units")), dtype=float).reshape(sshape))
+                            self.constants = getattr(self, "constants", {})
+                            self.constants[abs_in] = sv
                         else:
                             sv = symarray(prom, sshape)
                             created[prom] = sv
@@ -335,6 +343,20 @@ class GroupPipe:
                         vals[absn] = out[n]
         self.vals, self.resid = vals, resid
         return vals, resid, created
+
+    def _internal_default(self, comp, n, abs_in):
+        if "." not in comp.pathname:
+            return False
+        parent = self.model._get_subsystem(comp.pathname.rsplit(".", 1)[0])
+        if not type(parent).__module__.startswith("openaerostruct"):
+            return False
+        try:
+            rel = parent._resolver.abs2prom(abs_in, "input")
+        except Exception:
+            return False
+        return rel in (comp.name + "." + n, comp.pathname + "." + n) and self.internal_defaults
+
+    internal_defaults = False
 
     def get(self, prom):
         """value of an output by promoted (or absolute) name"""
